@@ -22,7 +22,7 @@ WALL = {"quick": 900, "thorough": 7200}
 REQUIRED = {"strands_completed": 1500, "circular": 300, "json_circular": 100, "labelled_edges_copied": 300,
             "involution_checks": 1000, "unknown_rejected": 100, "single_nucleotide": 20, "end_to_end": 20,
             "end_to_end_via_seq_list": 5, "json_keys_not_from_zero": 50, "json_keys_not_consecutive": 50,
-            "json_resids_not_from_one": 50, "json_nodes_listed_out_of_order": 50, "json_keys_not_in_residue_order": 50,
+            "json_resids_not_from_one": 50, "json_nodes_listed_out_of_order": 50, "json_keys_not_in_residue_order": 50, "sequences_wrapped_over_lines": 200, "headers_naming_dna_and_protein": 100, "txt_strands": 100,
             "terminal_bases": 8}
 COMP = {"DA": "DT", "DT": "DA", "DG": "DC", "DC": "DG"}
 SWAP = {"5": "3", "3": "5", "": ""}
@@ -54,7 +54,7 @@ def make_strand(rng, workdir, res):
     from polyply.src.meta_molecule import MetaMolecule
     n = rng.choice([1, 2, 2, 3]) if rng.random() < 0.12 else rng.randint(2, 60 if rng.random() < 0.9 else 400)
     seq = "".join(rng.choice("ACGT") for _ in range(n))
-    src = rng.choice(["fasta", "ig", "ig_circ", "json_circ", "json_lin"]) if n >= 3 else ("hand" if n == 1 else rng.choice(["fasta", "ig"]))
+    src = rng.choice(["fasta", "ig", "ig_circ", "json_circ", "json_lin", "txt"]) if n >= 3 else ("hand" if n == 1 else rng.choice(["fasta", "ig"]))
     circ = src in ("ig_circ", "json_circ")
     if src == "hand":
         import networkx as nx
@@ -62,13 +62,38 @@ def make_strand(rng, workdir, res):
         g.add_node(0, resname=ONE[seq[0]], resid=1)
         m = MetaMolecule(g, mol_name="t")
         bump(res, "single_nucleotide")
+    elif src == "txt":
+        # residue names, one space between them, any line breaking
+        names = [ONE[c] for c in seq]
+        names[0] += "5"
+        names[-1] += "3"
+        lines, i = [], 0
+        while i < n:
+            k = rng.randint(1, n)
+            lines.append(" ".join(names[i:i + k]))
+            i += k
+        p = Path(workdir) / "d.txt"
+        p.write_text("\n".join(lines) + "\n")
+        m = MetaMolecule.from_sequence_file(None, p, "t")
+        bump(res, "txt_strands")
     elif src in ("fasta", "ig", "ig_circ"):
+        # the sequence may be wrapped over several lines
+        if rng.random() < 0.5 and n >= 4:
+            cuts = sorted(rng.sample(range(1, n), min(n - 1, rng.randint(1, 3))))
+            body = "\n".join(seq[a:b] for a, b in zip([0] + cuts, cuts + [n]))
+            bump(res, "sequences_wrapped_over_lines")
+        else:
+            body = seq
+        # the header may mention more than the kind of the sequence
+        head = rng.choice(["DNA strand", "DNA strand", "DNA test", "DNA bound to a PROTEIN", "1ABC chain B DNA (PROTEIN complex)"])
+        if "PROTEIN" in head:
+            bump(res, "headers_naming_dna_and_protein")
         if src == "fasta":
             p = Path(workdir) / "d.fasta"
-            p.write_text(">DNA strand\n" + seq + "\n")
+            p.write_text(">" + head + "\n" + body + "\n")
         else:
             p = Path(workdir) / "d.ig"
-            p.write_text("; DNA test\ntitle\n" + seq + ("2" if circ else "1") + "\n")
+            p.write_text("; " + head + "\ntitle\n" + body + ("2" if circ else "1") + "\n")
         m = MetaMolecule.from_sequence_file(None, p, "t")
     else:
         import networkx as nx
